@@ -922,6 +922,8 @@ impl Family for CacheFamily {
   fn finish(&self, sc: &CacheSc, out: RunOut) -> Evaluated {
     CUR.with(|c| *c.borrow_mut() = None);
     let hist = HIST.with(|h| std::mem::take(&mut *h.borrow_mut()));
+    let mut out = out;
+    cache_reach(&hist, &mut out);
     if std::env::var("VERIF_DUMP").is_ok() {
       for e in &hist.evs {
         println!("  ev c{} [{}-{}] t={}..{} {:?} wrote={:?} -> {:?}", e.client, e.inv, e.ret, e.now_ns_inv, e.now_ns_ret, e.op, e.wrote, e.res);
@@ -1044,5 +1046,55 @@ impl Family for CacheFamily {
                "tokio::task::yield_now -> shuttle yield", "TaskSpawner -> shuttle::future::spawn"],
       "seams": ["CacheBuilder::{hasher, cache_policy_factory (recording proxy), eviction_listener, loader/async_loader, spawner, janitor_tick_interval, maintenance_chance, timer_wheel_size, timer_tick_duration}"]
     })
+  }
+}
+
+/// History-derived reach counters of the cache families (reported under `probes`).
+pub(crate) fn cache_reach(hist: &Hist, out: &mut RunOut) {
+  let mut hit = |name: &'static str, n: u64| {
+    if n > 0 {
+      *out.probes.entry(name).or_insert(0) += n;
+    }
+  };
+  for n in &hist.notes {
+    hit(
+      match n.reason {
+        EvictionReason::Capacity => "reach_notified_capacity_eviction",
+        EvictionReason::Expired => "reach_notified_expiry",
+        EvictionReason::Invalidated => "reach_notified_invalidation",
+      },
+      1,
+    );
+  }
+  hit("reach_loader_ran", hist.loads.len() as u64);
+  for l in &hist.loads {
+    let sharers = hist.evs.iter().filter(|e| matches!(e.op, COp::FetchWith { .. }) && e.res == Res::Val(l.id, 0)).count() as u64;
+    if sharers >= 2 {
+      hit("reach_load_shared_by_several_callers", 1);
+    }
+    // a caller that arrived while the loader function was running (between its begin and end)
+    if hist.evs.iter().any(|e| matches!(e.op, COp::FetchWith { k } if k == l.key) && e.inv > l.begin && e.inv < l.end) {
+      hit("reach_fetch_with_arrived_during_load", 1);
+    }
+    // a removal that overlapped the load
+    if hist.evs.iter().any(|e| matches!(e.op, COp::Remove { .. } | COp::Invalidate { .. } | COp::Clear | COp::MultiRemove { .. }) && e.ret > l.begin && e.inv < l.end.max(l.begin + 1) + 8) {
+      hit("reach_removal_near_load", 1);
+    }
+  }
+  for e in &hist.evs {
+    match (&e.op, &e.res) {
+      (COp::Clear, _) => hit("reach_clear", 1),
+      (COp::Get { .. } | COp::Fetch { .. } | COp::Peek { .. }, Res::None) => hit("reach_read_miss", 1),
+      (COp::Get { .. } | COp::Fetch { .. } | COp::Peek { .. }, Res::Val(..)) => hit("reach_read_hit", 1),
+      (COp::Compute { .. }, Res::Bool(true)) => hit("reach_compute_applied", 1),
+      (COp::Advance { .. }, _) => hit("reach_clock_advanced", 1),
+      _ => {}
+    }
+  }
+  if let Some(f) = &hist.fin {
+    hit("reach_maintenance_passes_to_fixpoint", f.maintenance_passes as u64);
+    if !f.settled {
+      hit("reach_not_settled", 1);
+    }
   }
 }
